@@ -930,6 +930,32 @@ def fam_tok(prop, tier):
              "try_join! { Some(Some(a)) => >>> |> { let t = Tok::new(1); move |v: u8| v.wrapping_add(t.0) } <<<, Some(Some(2u8)) |> >>> |> { let s = &mut seen; move |v: u8| { *s = v; v } } }",
              "Option<(u8, Option<u8>)>", "r == Some((a.wrapping_add(1), Some(2))) && seen == 2"),
         ]
+        # branch RESULTS that hold fresh mutable reborrows of the caller's locals (created inside the macro), with and
+        # without a final handler: the expansion must evaluate the steps in the caller's own scope
+        reb = "    let mut v = [a, 2u8];\n    let mut s = [10u8, 20u8];\n"
+        extra += [
+            ("reborrow_results_then_handler", reb,
+             "join! { v.iter_mut(), s.first_mut(), then => |it: core::slice::IterMut<u8>, f: Option<&mut u8>| { for x in it { *x = x.wrapping_add(1); } if let Some(f) = f { *f = 5; } 1u8 } }",
+             "u8", "r == 1 && v == [a.wrapping_add(1), 3] && s == [5, 20]"),
+            ("reborrow_results_no_handler", reb,
+             "{ let t: (core::slice::IterMut<u8>, Option<&mut u8>) = join! { v.iter_mut(), s.first_mut() }; for x in t.0 { *x = x.wrapping_add(1); } if let Some(f) = t.1 { *f = 5; } 1u8 }",
+             "u8", "r == 1 && v == [a.wrapping_add(1), 3] && s == [5, 20]"),
+            ("reborrow_carried_steps_then_handler", "    let mut c = a;\n    let mut s = [10u8, 20u8];\n",
+             "join! { &mut c ~-> bump_mut ~-> bump_mut, s.iter_mut() ~|> |x: &mut u8| { *x = x.wrapping_add(1); *x } ~..fold(0u8, |p, q| p.wrapping_add(q)), then => |m: &mut u8, t: u8| { *m = m.wrapping_add(t); *m } }",
+             "u8", "r == a.wrapping_add(34) && c == r && s == [11, 21]"),
+            ("reborrow_results_try_map_handler", reb,
+             "try_join! { v.first_mut(), s.last_mut() ~|> |y: &mut u8| { *y = y.wrapping_add(1); y }, map => |x: &mut u8, y: &mut u8| { *x = x.wrapping_add(*y); 1u8 } }",
+             "Option<u8>", "r == Some(1) && v == [a.wrapping_add(21), 2] && s == [10, 21]"),
+            ("reborrow_results_try_and_then_handler", reb,
+             "try_join! { v.first_mut(), s.get_mut(1), and_then => |x: &mut u8, y: &mut u8| { core::mem::swap(x, y); Some(1u8) } }",
+             "Option<u8>", "r == Some(1) && v == [20, 2] && s == [10, a]"),
+            ("reborrow_results_async_then_handler", reb + "    let (vr, sr) = (&mut v, &mut s);\n",
+             "run(join_async! { gate(0, 1, vr.first_mut()), gate(0, 2, sr.last_mut()), then => |x: Option<&mut u8>, y: Option<&mut u8>| { if let (Some(x), Some(y)) = (x, y) { core::mem::swap(x, y); } core::future::ready(1u8) } }, 4).0",
+             "Option<u8>", "r == Some(1) && v == [20, 2] && s == [10, a]"),
+            ("reborrow_results_try_async_map_handler", reb + "    let (vr, sr) = (&mut v, &mut s);\n",
+             "run(try_join_async! { gate(0, 1, vr.first_mut().ok_or(0u8)), gate(0, 2, sr.last_mut().ok_or(0u8)), map => |x: &mut u8, y: &mut u8| { core::mem::swap(x, y); 1u8 } }, 4).0",
+             "Option<Result<u8, u8>>", "r == Some(Ok(1)) && v == [20, 2] && s == [10, a]"),
+        ]
         for (name, pre, prog, rty, ok) in extra:
             b = "    let a: u8 = kani::any();\n" + pre
             b += "    let r: %s = %s;\n    assert!(%s);\n" % (rty, prog, ok)
@@ -1139,10 +1165,20 @@ def fam_let(prop, tier):
             if mac == "join_async" and (max(ds) > 3 or len(ds) > 2):
                 continue
             out.append(_let_harness(prop, mac, ds, 2 ** len(ds) - 1, own=True))
+    # names that are raw identifiers (`let r#type = ..`): an ordinary name as far as the property is concerned
+    for mac in ("join", "try_join", "join_async"):
+        for ds, mask in [((2, 2), 3), ((1, 2, 3), 7), ((2, 3, 1), 5)] + ([((2, 2, 2, 2), 15)] if tier != "quick" and mac != "join_async" else []):
+            if mac == "join_async" and len(ds) > 2:
+                continue
+            out.append(_let_harness(prop, mac, ds, mask, raw=True))
+        out.append(_let_harness(prop, mac, (3, 1), 3, own=True, raw=True))
     return out
 
 
-def _let_harness(prop, mac, ds, mask, own=False):
+RAW_NAMES = ["r#type", "r#true", "r#match", "r#false"]
+
+
+def _let_harness(prop, mac, ds, mask, own=False, raw=False):
     """named branches = bits of mask.  In every step s >= 1 branch j reads, inside a block capture, the name of the
     nearest named branch i != j (cyclically) and folds the snapshot into its value.  own=True: a named branch reads
     ITS OWN name instead (also in steps in which it is the only branch still running)."""
@@ -1161,11 +1197,15 @@ def _let_harness(prop, mac, ds, mask, own=False):
         return "%s.clone().unwrap_or(77)" % nm if not is_async else "%s.clone().unwrap_or(77)" % nm
     brs = []
     reads = {}
+
+    def nm(i):
+        # raw=True: the name is a raw identifier whose unprefixed spelling is a keyword or a literal
+        return RAW_NAMES[i % len(RAW_NAMES)] if raw else "n%d" % i
     for j in range(n):
         init = "%s(a%d)" % (W, j)
         if is_async:
             init = "gate(0, code(K_POLL, %d, 0, 0), %s)" % (j, init)
-        t = ("let %sn%d = " % ("mut " if j % 2 else "", j) if j in named else "") + init
+        t = ("let %s%s = " % ("mut " if j % 2 else "", nm(j)) if j in named else "") + init
         for s in range(1, ds[j]):
             others = [i for i in named if i != j]
             if own and j in named:
@@ -1173,7 +1213,7 @@ def _let_harness(prop, mac, ds, mask, own=False):
             if others:
                 i = others[(j + s) % len(others)]
                 reads[(j, s)] = i
-                body = "{ let snap: u8 = %s; move |x: u8| x.wrapping_mul(3).wrapping_add(snap) }" % snap_expr("n%d" % i)
+                body = "{ let snap: u8 = %s; move |x: u8| x.wrapping_mul(3).wrapping_add(snap) }" % snap_expr(nm(i))
             else:
                 body = "|x: u8| x.wrapping_mul(3).wrapping_add(%d)" % K(j, s)
             if is_async and is_try:
@@ -1212,7 +1252,7 @@ def _let_harness(prop, mac, ds, mask, own=False):
     else:
         b += "    let exp: %s = %s;\n" % (rty, tup("Some(c%d)" % i for i in range(n)))
     b += "    assert!(r == exp, \"C12: a name did not expose its branch's latest step result (or naming changed the result)\");\n"
-    hn = "%s_let_%s_%s_m%d%s" % (prop.lower(), mac, pname(ds), mask, "_own" if own else "")
+    hn = "%s_let_%s_%s_m%d%s%s" % (prop.lower(), mac, pname(ds), mask, "_own" if own else "", "_raw" if raw else "")
     return Harness(hn, harness_fn(hn, b, unwind=(3 if is_async else None)), prog, note="profile %s, named branches mask %s" % (ds, bin(mask)))
 
 
@@ -1953,6 +1993,7 @@ def native_families(pid, tier):
                     out.append(_let_harness(pid, mac, ds, mask))
             for ds in [(3, 1), (1, 3), (2, 4, 1)]:
                 out.append(_let_harness(pid, mac, ds, 2 ** len(ds) - 1, own=True))
+            out.append(_let_harness(pid, mac, (2, 3, 1), 7, raw=True))
     if pid == "C13":
         for mac, hk in [("join_spawn", "then"), ("try_join_spawn", "map"), ("try_join_spawn", "and_then")]:
             for n in (2, 3):
